@@ -324,7 +324,10 @@ class M(Model):
         import jax
 
         for t in range(max(len(w) for w in walks)):
-            act = np.asarray([w[t] if t < len(w) else 0 for w in walks], self.b.act_dtype)
+            # agents whose walk is over name their own node: never an edge, so they cannot win the random
+            # tie-break against an agent that is still walking (a finished agent naming a neighbour can)
+            here = np.asarray(s.positions, np.int64)
+            act = np.asarray([w[t] if t < len(w) else int(here[a]) for a, w in enumerate(walks)], self.b.act_dtype)
             mask = np.asarray(s.action_mask).astype(bool)
             for a, w in enumerate(walks):
                 if t < len(w) and not mask[a, w[t]]:
